@@ -194,7 +194,7 @@ PROPS = {
     ),
     "C20": dict(
         coq="Properties/C20.v",
-        suites=[dict(STAGE_SUITE, oracles=["clean_removed_undelivered_partial", "clean_removed_undelivered_companion", "clean_removed_validated_data"],
+        suites=[dict(STAGE_SUITE, oracles=["clean_removed_undelivered_partial", "clean_removed_undelivered_companion", "clean_removed_validated_data", "clean_removed_partial_of_running_transfer"],
                      diffs=["stage-files", "companions"])],
         rule=STAGE_RULE,
         level_text=("Proof: cleanStrays (after fix d299eeb) never touches .full/.wait bodies, delivered files, log or cache, only removes partials/companions, "
